@@ -271,6 +271,17 @@ func c08GenTree(name string, depth, arity, leaves int) *c08Tree {
 func (t *c08Tree) expr() *gripql.HasExpression {
 	switch t.kind {
 	case 0:
+		// leaf 0: eq(p0, true); leaves 1 and 2: gt(x, 5) and lte(x, 5), which are
+		// complements of each other on numbers only (both are false when x is missing
+		// or not a number)
+		if t.leaf == 1 || t.leaf == 2 {
+			v, _ := structpb.NewValue(5.0)
+			op := gripql.Condition_GT
+			if t.leaf == 2 {
+				op = gripql.Condition_LTE
+			}
+			return &gripql.HasExpression{Expression: &gripql.HasExpression_Condition{Condition: &gripql.HasCondition{Key: "x", Value: v, Condition: op}}}
+		}
 		v, _ := structpb.NewValue(true)
 		return &gripql.HasExpression{Expression: &gripql.HasExpression_Condition{Condition: &gripql.HasCondition{
 			Key: "p" + strconv.Itoa(t.leaf), Value: v, Condition: gripql.Condition_EQ}}}
@@ -335,9 +346,21 @@ func (t *c08Tree) neg() *c08Tree {
 func VerifH_C08_bool() {
 	D := vParam("D", 2)
 	A := vParam("A", 2)
-	p := []bool{vNondetBool("p0"), vNondetBool("p1"), vNondetBool("p2")}
-	data := map[string]interface{}{"p0": p[0], "p1": p[1], "p2": p[2]}
+	data := map[string]interface{}{"p0": vNondetBool("p0")}
+	switch vChoice("x.kind", 3) {
+	case 1:
+		data["x"] = "s"
+	case 2:
+		data["x"] = vFinite("x")
+	}
 	t := &gdbi.BaseTraveler{Current: &gdbi.DataElement{ID: "v1", Label: "L", Data: data, Loaded: true}}
+	// the truth value of a leaf is what the real code answers for the bare condition
+	// (its meaning is the subject of VerifH_C08_cond); the connectives must be
+	// truth-functional over these
+	p := make([]bool, 3)
+	for i := range p {
+		p[i] = MatchesHasExpression(t, (&c08Tree{kind: 0, leaf: i}).expr())
+	}
 	tree := c08GenTree("t", D, A, 3)
 	got := MatchesHasExpression(t, tree.expr())
 	vAssert("C08.bool.structural", got == tree.eval(p))
